@@ -1397,7 +1397,7 @@ func (d *DFA) determinize(cache *DFACache, current *State, b byte) (*State, erro
 	// Compute state key INCLUDING word context AND match delay flag.
 	// With match delay, the same NFA state set can produce both match and
 	// non-match DFA states (depending on whether the source had NFA match).
-	key := ComputeStateKeyWithWordAndMatch(nextNFAStates, nextIsFromWord, isMatch)
+	key := computeOrderedStateKey(nextNFAStates, nextIsFromWord, isMatch)
 
 	// Check if state already exists in cache
 	if existing, ok := cache.Get(key); ok {
@@ -1436,7 +1436,7 @@ func (d *DFA) determinize(cache *DFACache, current *State, b byte) (*State, erro
 		cur := NewStateWithStride(InvalidState, current.NFAStates(), current.IsMatch(), current.IsFromWord(), d.AlphabetLen())
 		cur.matchAtWordBoundary = current.matchAtWordBoundary
 		cur.matchAtNonWordBoundary = current.matchAtNonWordBoundary
-		curKey := ComputeStateKeyWithWordAndMatch(current.NFAStates(), current.IsFromWord(), current.IsMatch())
+		curKey := computeOrderedStateKey(current.NFAStates(), current.IsFromWord(), current.IsMatch())
 		if _, err := cache.Insert(curKey, cur); err != nil {
 			return nil, ErrCacheFull
 		}
